@@ -236,7 +236,17 @@ func (m *mon) rrt(script, trace string) int {
 				after = append(after, t)
 			}
 		}
-		allowed := int(b.inside) + 1 // one per goroutine inside Send when the indication was taken in (+1: one about to enter)
+		// The serve loop, having taken the indication in, still has to win the send mutex: the
+		// goroutines already waiting for it go first (one straggler each), and while the scheduler
+		// keeps the serve loop from running, senders re-entering Send queue up ahead of it too: 30 ms
+		// of scheduling slack are granted, counted in transmissions (one per pause, at least one per
+		// 100 us).  If more transmissions than that follow without a silence of the announced
+		// length, the indication was not honoured.  Fewer (the senders ran out) decides nothing.
+		per := int64(pause) * 1000
+		if per < 100 {
+			per = 100
+		}
+		allowed := int(b.inside) + 1 + int(30000/per)
 		prev, silent := b.t, false
 		for j := 0; j <= allowed; j++ {
 			if j >= len(after) {
